@@ -297,4 +297,115 @@ theorem acceptAccess_ok {d : Deployment} {now : Clock} {a : Artefact} {u : Str}
                 rw [hl] at h6
                 exact h6 (by simp)
 
+/-! ### a consumer sees the claims object only through the keys of its own struct -/
+
+theorem gStr_congr {w w' : Wire} {f : Field} (h : w' f = w f) : gStr w' f = gStr w f := by unfold gStr; rw [h]
+theorem gInt_congr {w w' : Wire} {f : Field} (h : w' f = w f) : gInt w' f = gInt w f := by unfold gInt; rw [h]
+theorem gStrs_congr {w w' : Wire} {f : Field} (h : w' f = w f) : gStrs w' f = gStrs w f := by unfold gStrs; rw [h]
+theorem okStr_congr {w w' : Wire} {f : Field} (h : w' f = w f) : okStr w' f = okStr w f := by unfold okStr; rw [h]
+theorem okInt_congr {w w' : Wire} {f : Field} (h : w' f = w f) : okInt w' f = okInt w f := by unfold okInt; rw [h]
+theorem okStrs_congr {w w' : Wire} {f : Field} (h : w' f = w f) : okStrs w' f = okStrs w f := by unfold okStrs; rw [h]
+
+theorem authValuesBad_congr {w w' : Wire} (d : Deployment) (now : Clock) (want : Str)
+    (h1 : w' .iss = w .iss) (h3 : w' .aud = w .aud) (h5 : w' .nbf = w .nbf) (h7 : w' .tokenType = w .tokenType) :
+    authValuesBad d now want w' = authValuesBad d now want w := by
+  unfold authValuesBad
+  rw [gStr_congr h1, gStr_congr h7, gStrs_congr h3, gInt_congr h5]
+
+theorem typedAuth_congr {w w' : Wire}
+    (h1 : w' .iss = w .iss) (h2 : w' .sub = w .sub) (h3 : w' .aud = w .aud)
+    (h4 : w' .exp = w .exp) (h5 : w' .nbf = w .nbf) (h6 : w' .iat = w .iat)
+    (h7 : w' .tokenType = w .tokenType) (h8 : w' .authType = w .authType) : typedAuth w' = typedAuth w := by
+  unfold typedAuth
+  rw [okStr_congr h1, okStr_congr h2, okStrs_congr h3, okInt_congr h4, okInt_congr h5, okInt_congr h6,
+    okStr_congr h7, okInt_congr h8]
+
+theorem getAuthInfo_congr (d : Deployment) (now : Clock) (want : Str) (a : Artefact) (w' : Wire)
+    (h1 : w' .iss = a.claims .iss) (h2 : w' .sub = a.claims .sub) (h3 : w' .aud = a.claims .aud)
+    (h4 : w' .exp = a.claims .exp) (h5 : w' .nbf = a.claims .nbf) (h6 : w' .iat = a.claims .iat)
+    (h7 : w' .tokenType = a.claims .tokenType) (h8 : w' .authType = a.claims .authType) :
+    getAuthInfoFromJWT d now want { a with claims := w' } = getAuthInfoFromJWT d now want a := by
+  have vv : verifies d { a with claims := w' } = verifies d a := rfl
+  unfold getAuthInfoFromJWT
+  simp only
+  rw [vv, typedAuth_congr h1 h2 h3 h4 h5 h6 h7 h8, authValuesBad_congr d now want h1 h3 h5 h7,
+    gStr_congr h2, gInt_congr h8, gInt_congr h4, gInt_congr h6]
+
+theorem acceptUpgrade_congr (d : Deployment) (now : Clock) (lvl : Int) (a : Artefact) (w' : Wire)
+    (h1 : w' .iss = a.claims .iss) (h2 : w' .sub = a.claims .sub) (h3 : w' .aud = a.claims .aud)
+    (h4 : w' .exp = a.claims .exp) (h5 : w' .nbf = a.claims .nbf) (h6 : w' .iat = a.claims .iat)
+    (h7 : w' .tokenType = a.claims .tokenType) (h8 : w' .authType = a.claims .authType) :
+    acceptUpgrade d now lvl { a with claims := w' } = acceptUpgrade d now lvl a := by
+  have vv : verifies d { a with claims := w' } = verifies d a := rfl
+  unfold acceptUpgrade decodeAuth
+  simp only
+  rw [vv, typedAuth_congr h1 h2 h3 h4 h5 h6 h7 h8, authValuesBad_congr d now sessionType h1 h3 h5 h7,
+    gStr_congr h1, gStr_congr h2, gStrs_congr h3, gInt_congr h4, gInt_congr h5, gInt_congr h6, gStr_congr h7]
+
+theorem storageVerify_congr (d : Deployment) (now : Clock) (a : Artefact) (w' : Wire)
+    (h1 : w' .iss = a.claims .iss) (h2 : w' .sub = a.claims .sub) (h3 : w' .aud = a.claims .aud)
+    (h4 : w' .nbf = a.claims .nbf) (h5 : w' .exp = a.claims .exp) (h6 : w' .iat = a.claims .iat)
+    (h7 : w' .tokenType = a.claims .tokenType) (h8 : w' .dataType = a.claims .dataType)
+    (h9 : w' .data = a.claims .data) :
+    storageVerify d now { a with claims := w' } = storageVerify d now a := by
+  have vv : verifies d { a with claims := w' } = verifies d a := rfl
+  have t : typedStorage w' = typedStorage a.claims := by
+    unfold typedStorage
+    rw [okStr_congr h1, okStr_congr h2, okStrs_congr h3, okInt_congr h4, okInt_congr h5, okInt_congr h6,
+      okStr_congr h7, okInt_congr h8, okStr_congr h9]
+  unfold storageVerify
+  simp only
+  rw [vv, t, authValuesBad_congr d now storageType h1 h3 h4 h7]
+
+theorem acceptStorage_congr (d : Deployment) (now : Clock) (r : Row) (u : Str) (ty : Int) (w' : Wire)
+    (h1 : w' .iss = r.jws.claims .iss) (h2 : w' .sub = r.jws.claims .sub) (h3 : w' .aud = r.jws.claims .aud)
+    (h4 : w' .nbf = r.jws.claims .nbf) (h5 : w' .exp = r.jws.claims .exp) (h6 : w' .iat = r.jws.claims .iat)
+    (h7 : w' .tokenType = r.jws.claims .tokenType) (h8 : w' .dataType = r.jws.claims .dataType)
+    (h9 : w' .data = r.jws.claims .data) :
+    acceptStorage d now (some { r with jws := { r.jws with claims := w' } }) u ty = acceptStorage d now (some r) u ty := by
+  have sm : sqlMatch now { r with jws := { r.jws with claims := w' } } u ty = sqlMatch now r u ty := rfl
+  simp only [acceptStorage]
+  rw [sm, storageVerify_congr d now r.jws w' h1 h2 h3 h4 h5 h6 h7 h8 h9, gStr_congr h2, gInt_congr h8,
+    gInt_congr h5, gStr_congr h9]
+
+theorem acceptCode_congr (d : Deployment) (now : Clock) (cl rd : Str) (ok : Bool) (a : Artefact) (w' : Wire)
+    (h : ∀ g ∈ [Field.iss, .sub, .iat, .exp, .aud, .username, .authLevel, .authExp, .nonce, .redirectUri,
+                .accessAudience, .scope, .typ, .jti, .protectedDataKey, .protectedData], w' g = a.claims g) :
+    isOk (acceptCode d now cl rd ok { a with claims := w' }) = isOk (acceptCode d now cl rd ok a) := by
+  have vv : verifies d { a with claims := w' } = verifies d a := rfl
+  simp only [List.forall_mem_cons, List.not_mem_nil, false_imp_iff, implies_true, and_true] at h
+  obtain ⟨h1, h2, h3, h4, h5, h6, h7, h8, h9, h10, h11, h12, h13, h14, h15, h16⟩ := h
+  have t : typedCode w' = typedCode a.claims := by
+    unfold typedCode
+    rw [okStr_congr h1, okStr_congr h2, okInt_congr h3, okInt_congr h4, okStrs_congr h5, okStr_congr h6,
+      okInt_congr h7, okInt_congr h8, okStr_congr h9, okStr_congr h10, okStrs_congr h11, okStr_congr h12,
+      okStr_congr h13, okStr_congr h14, okStr_congr h15, okStr_congr h16]
+  have cc : codeChecks now cl rd w' = codeChecks now cl rd a.claims := by
+    unfold codeChecks
+    rw [gStr_congr h2, gInt_congr h4, gStr_congr h10, gStr_congr h13]
+  unfold acceptCode
+  simp only
+  rw [vv, t, cc]
+  split
+  · rfl
+  · split
+    · rfl
+    · split
+      · rfl
+      · split <;> rfl
+
+theorem acceptAccess_congr (d : Deployment) (now : Clock) (a : Artefact) (w' : Wire)
+    (h1 : w' .iss = a.claims .iss) (h2 : w' .aud = a.claims .aud) (h3 : w' .username = a.claims .username)
+    (h4 : w' .scope = a.claims .scope) (h5 : w' .exp = a.claims .exp) (h6 : w' .iat = a.claims .iat)
+    (h7 : w' .typ = a.claims .typ) :
+    acceptAccess d now { a with claims := w' } = acceptAccess d now a := by
+  have vv : verifies d { a with claims := w' } = verifies d a := rfl
+  have t : typedAccess w' = typedAccess a.claims := by
+    unfold typedAccess
+    rw [okStr_congr h1, okStrs_congr h2, okStr_congr h3, okStr_congr h4, okInt_congr h5, okInt_congr h6,
+      okStr_congr h7]
+  unfold acceptAccess
+  simp only
+  rw [vv, t, gInt_congr h5, gStr_congr h7, gStr_congr h1, gStrs_congr h2, gStr_congr h3]
+
 end KM.Token
